@@ -136,6 +136,16 @@ theorem typed_bound_attained :
     (typedFireAll [{ prio := 0, noLoop := false, ck := false, limit := 1, ak := true, inc := 1 }] { a := 0, b := 0 }).2.length = 100 := by
   decide +kernel
 
+/-- **no_loop_once_between_resets, over engine histories.**  One `IncrementalEngine` with any rule set (no-op actions, facts of
+one type), driven through ANY sequence of insert / update / retract / fire_all / reset calls: walking through the names returned
+by the successive `fire_all` calls, a no-loop rule never appears a second time unless a `reset` came in between — whatever happened
+between the calls, in particular when an earlier call stopped at `max_iterations` with activations still pending (the bound stops
+the loop; it does not touch the fired-rule set) — every call returns at most 1000 names, and handles are handed out in sequence.
+This is the predicate `histOk` the driver evaluates on the implementation's observations of the `H` cases. -/
+theorem no_loop_once_engine_history (rules : List CRule) (hops : List HOp) :
+    histOk (isNoLoopOf rules) incBound [] 1 hops (({ rules := rules } : Inc).htrace hops) = true :=
+  histOk_trace rules hops { rules := rules } [] ⟨rfl, by intro n hn; simp at hn, by intro a ha; simp at ha⟩
+
 /-- **model_meets_spec.** Every history of the model satisfies the observation-level specification `runOk` (the
 predicate the driver evaluates on the implementation's observations): each pop obeys focus fall-back, membership,
 no-loop, activation-group, lock-on-active and maximality, and the statistics follow. -/
@@ -168,5 +178,13 @@ example : (ulFireAll [{ prio := 1, noLoop := false, ck := false, limit := 3, ak 
                       { prio := 7, noLoop := true, ck := false, limit := 3, ak := true, inc := 2 }] { a := 0, b := 0 }).2 = [1, 0] := by decide
 example : ((({ rules := [{ prio := 3, noLoop := true, ck := false, limit := 5, ak := false, inc := 0 }] } : Inc).insert 1 1).fireAll).2 = [0] := by
   decide +kernel
+
+-- engine history (small; the histories in which a call stops at the bound are run by the driver: corpus/C07 `H …`): `welcome`
+-- (no-loop, salience 10) and `once` (no-loop, `a < 2`): both fire in the first call; after an update — no reset — nothing fires
+-- although both have fresh activations; after a reset and another update that keeps only `welcome` true, `welcome` fires again
+def welcome : CRule := { prio := 10, noLoop := true, ck := false, limit := 1000000000, ak := false, inc := 0 }
+def once : CRule := { prio := 0, noLoop := true, ck := false, limit := 2, ak := false, inc := 0 }
+example : (({ rules := [welcome, once] } : Inc).htrace [.insert 1 0, .fire, .update 1 0 5, .fire, .reset, .update 1 3 0, .fire]) =
+    [.handle 1, .fired [0, 1], .ok true, .fired [], .unit, .ok true, .fired [0]] := by decide +kernel
 
 end C07
